@@ -8,10 +8,10 @@
 // statement of "threshold met" / "unexpired"; every op stays available.
 //
 // Ops (one output line each; every case starts with a `cfg` line):
-//   cfg mi=<s> bw=<s> bl=<n> diff=<d> cd=<s> hdiff=<d>
+//   cfg mi=<s> bw=<s> bl=<n> diff=<d> cd=<s> hdiff=<d> [bs=<peer>:<pub|->,...]   (bs=: Config::bootstrap_nodes, pinned identity or none)
 //        -> mi=<s> bw=<s> bl=<n> diff=<d> cd=<s> hdiff=<d>          (sanitised values of the Node)
 //   adv <ns>                                   -> ok
-//   ann <peer> <chunk> <mtok> <flags> <ver>
+//   ann <peer> <chunk> <mtok> <flags> <ver> [as=<i,j,..>|as=-]     (as=: explicit assigned shard indices)
 //        flags: '-' or letters  S sender!=announcer  E empty uri  W wrong PoW nonce  G undecodable uri
 //               I manifest of another chunk  T threshold unmet  X expired  x ttl below minimum
 //               A assigned shard not in manifest  n no assigned shards  e no endpoint
@@ -70,6 +70,7 @@ std::map<std::string, std::uint64_t> nonce_cache; // peer/pub/token -> nonce
 std::string cfg_line;
 
 PeerId self_id() { return verif::id32("s1"); }
+void learn_pub(std::uint32_t pub);
 
 long long kv_get(const std::vector<std::string>& t, const std::string& k, long long dflt) {
     for (const auto& x : t) {
@@ -87,6 +88,21 @@ void make_node(const std::vector<std::string>& t) {
     c.announce_pow_difficulty = static_cast<std::uint8_t>(kv_get(t, "diff", 2));
     c.handshake_cooldown = std::chrono::seconds(kv_get(t, "cd", 5));
     c.handshake_pow_difficulty = static_cast<std::uint8_t>(kv_get(t, "hdiff", 2));
+    std::vector<std::uint32_t> pinned;
+    for (const auto& x : t) {
+        if (x.rfind("bs=", 0) != 0 || x.size() <= 3) continue;
+        for (const auto& ent : verif::split(x.substr(3), ',')) {
+            const auto colon = ent.find(':');
+            if (colon == std::string::npos) continue;
+            Config::BootstrapNode b{};
+            b.id = verif::id32(ent.substr(0, colon));
+            b.host = "127.0.0.1";
+            b.port = 1;
+            const std::string pk = ent.substr(colon + 1);
+            if (pk != "-") { b.public_identity = static_cast<std::uint32_t>(std::stoull(pk)); pinned.push_back(*b.public_identity); }
+            c.bootstrap_nodes.push_back(b);
+        }
+    }
     node.reset();
     oracle.reset();
     node = std::make_unique<Node>(self_id(), c);
@@ -97,6 +113,7 @@ void make_node(const std::vector<std::string>& t) {
 #endif
     key_to_pub.clear();
     nonce_cache.clear();
+    for (const auto pk : pinned) learn_pub(pk);
 }
 
 // PoW validity of (claimed peer, this node, key, nonce) at the configured difficulty, for a VALID key
@@ -235,8 +252,14 @@ std::string op_ann(const std::vector<std::string>& t) {
     if (has(flags, 'E')) p.manifest_uri.clear();
     else if (has(flags, 'G')) p.manifest_uri = "eph://not-a-manifest";
     else p.manifest_uri = protocol::encode_manifest(manifest);
-    if (!has(flags, 'n')) p.assigned_shards.push_back(1);
-    if (has(flags, 'A')) p.assigned_shards.push_back(99);
+    if (t.size() == 7 && t[6].rfind("as=", 0) == 0) {
+        // explicit assigned shard indices (as=- : none)
+        const std::string list = t[6].substr(3);
+        if (list != "-") for (const auto& x : verif::split(list, ',')) p.assigned_shards.push_back(static_cast<std::uint8_t>(std::stoul(x)));
+    } else {
+        if (!has(flags, 'n')) p.assigned_shards.push_back(1);
+        if (has(flags, 'A')) p.assigned_shards.push_back(99);
+    }
 
     const auto diff = node->config_.announce_pow_difficulty;
     if (has(flags, 'W') && diff > 0) {
@@ -482,7 +505,7 @@ int main(int argc, char** argv) {
         if (t[0] == "cfg") { vh::make_node(t); return vh::sanitised(); }
         if (!vh::node) vh::make_node({});
         if (t[0] == "adv" && t.size() == 2) { verif::vclock_advance(std::stoll(t[1])); return "ok"; }
-        if (t[0] == "ann" && t.size() == 6) return vh::op_ann(t);
+        if (t[0] == "ann" && (t.size() == 6 || t.size() == 7)) return vh::op_ann(t);
         if (t[0] == "hold" && t.size() == 2) {
             vh::node->store_chunk(verif::id32(t[1]), ephemeralnet::ChunkData(64, 0x5a), std::chrono::seconds(0));
             return "ok";
